@@ -59,6 +59,10 @@ fn sweep_model(i: usize) -> ModelGame {
 pub fn case(ctx: &Ctx, kind: &str, params: &Value, counting: bool) -> Result<(), Fail> {
 	let m = match kind {
 		"sweep" => sweep_model(params["i"].as_u64().unwrap_or(0) as usize),
+		"fixture" => match fixture_model(&dna_param(params)) {
+			Some((_, m)) => m,
+			None => return Ok(()),
+		},
 		_ => model_from_dna(&dna_param(params), &cfg_for(ctx)),
 	};
 	check_model(ctx, &m, counting)
@@ -91,6 +95,22 @@ pub fn run(ctx: &Ctx) -> usize {
 	let cases = ctx.n(60_000, 3_000_000);
 	if run_dna(ctx, "dna", cases, dna_max(ctx), |dna, counting| check_model(ctx, &model_from_dna(dna, &cfg), counting)).is_some() {
 		violations += 1;
+	}
+	if fixture_count() > 0 {
+		ctx.put("fixture_bank", json!(fixture_count()));
+		if run_dna(ctx, "fixture", ctx.n(6_000, 300_000), 512, |dna, counting| match fixture_model(dna) {
+			Some((name, m)) => {
+				if counting {
+					ctx.class(&format!("fixture:{}", name));
+				}
+				check_model(ctx, &m, counting)
+			}
+			None => Ok(()),
+		})
+		.is_some()
+		{
+			violations += 1;
+		}
 	}
 	if !ctx.quick() && violations == 0 {
 		let secs = std::env::var("PV_FUZZ_SECS").ok().and_then(|s| s.parse().ok()).unwrap_or(240);
